@@ -36,6 +36,9 @@ CHECKS = {
  "C08": dict(engine="relay", tech="TLA+ spec (Relay sync lock) model-checked by TLC incl. a negative control; recorded executions with racing registrations and creations validated by TLC",
    text="ExactlyOnce and HeldBlocksSync are model-checked over all interleavings (and a mutated model without sync blocks must violate ExactlyOnce - vacuity guard). In recorded runs of the real code every sync.exclusive must find no sync block held, every block.acquired no registration in progress, every store.add / activation must satisfy snapshot XOR creation-relayed for each live active subscribed plugin, and registrations must complete once blocks are released.",
    ref="5/C08", note="Assumes the runtime performs creation and bookkeeping inside one sync block (the harness' runtime does). Same trusted base as C06."),
+ "C17": dict(engine="relay", tech="TLA+ spec (Relay registration; WellFormed decided from raw strings in Trace_Relay) model-checked by TLC; TLC-enumerated registration classes (Gen_Reg) replayed with raw plugin peers; recorded runs validated by TLC",
+   text="MC_Relay with malformed registrations in the accept queue (OnlyWellFormed, liveness RegsEnd: bad plugins never stop later ones). Gen_Reg enumerates name x index-string x mask x stall classes (empty/one/three digits, letters, sign, space, non-ASCII digits; foreign, high and sign bits; never registers / never answers Configure) alone and as up to 2 (3 thorough) bad plugins ahead of a good one; each is realised with raw mux+ttRPC peers; the trace specification decides well-formedness itself from the logged raw strings and rejects any Synchronize/event reaching a malformed peer, a well-formed peer not activated within the budget, a socket served when disabled, or a created socket directory with group/other permission bits (umask 000/022/077/007).",
+   ref="5/C17", note="Trusted base as C06; timeouts shortened to 200 ms; slack 2 s."),
  "C19": dict(engine="relay", tech="TLA+ spec (Relay adaptation lock) model-checked by TLC; recorded executions with concurrent unsolicited updates validated by TLC",
    text="CallbackExclusive is model-checked; in recorded runs the update callback must run only while the adaptation lock is held by that update (never overlapping a request, an activation or another update), exactly once per call with the payload sent, and the plugin must get back exactly the callback's failed list or error. A stub that was never started must answer ErrNoService at once (checked by the driver's preamble event).",
    ref="5/C19", note="Same trusted base as C06."),
@@ -82,7 +85,7 @@ m = {
  "engines": [
    {"name": "oci", "path": "/verif/lib/oci.py", "serves_properties": ["C13"],
     "kind_free_text": "TLC (tla/Gen_Oci) + replay on pkg/runtime-tools/generate (harness/ocidrv) + TLC trace validation (tla/Trace_Oci)"},
-   {"name": "relay", "path": "/verif/lib/relay.py", "serves_properties": ["C06", "C07", "C08", "C19"],
+   {"name": "relay", "path": "/verif/lib/relay.py", "serves_properties": ["C06", "C07", "C08", "C17", "C19"],
     "kind_free_text": "TLC model checking (tla/MC_Relay over tla/Relay), recording driver (harness/relaydrv, hooks pkg/vhook), TLC trace validation (tla/Trace_Relay)"},
    {"name": "adjust", "path": "/verif/lib/adjust.py", "serves_properties": ["C01", "C02", "C03", "C04", "C05"],
     "kind_free_text": "TLC model checking + scenario emission (tla/Gen_Adjust), replay on the real code (harness/adjdrv), TLC trace validation (tla/Trace_Adjust)"},
